@@ -484,7 +484,7 @@ Definition run_one : M bool :=
 
 (* ------------------------------------------------------------ stack trace *)
 (* trace.rs:31-77; a frame = (name, desc) *)
-Definition stack_trace (s : vm) : out (list (option text * option cell)) :=
+Definition stack_trace (s : vm) : out trace :=
   do lv <- heap_get (hp s) (fst (ip s));
   match lv with
   | VLambda lid =>
@@ -539,7 +539,7 @@ Definition stack_trace (s : vm) : out (list (option text * option cell)) :=
 Inductive run_result :=
 | Done (c : cell)          (* HALT: Ok(Some(cell)) *)
 | Yield                    (* budget exhausted: Ok(None) *)
-| Failed (e : N) (msg : text).
+| Failed (e : N) (msg : text) (tr : option trace).   (* Err(e); last_stacktrace = tr *)
 
 (* run_count, run.rs:25-64 (budget tested after executing; registers reset on the
    error path), without the collector (see Gc.v; a collection is not
@@ -567,7 +567,7 @@ Fixpoint run_loop (fuel : nat) (cycles : N) (count : option N) (s : vm) : res ru
           | Ok t =>
               (* stack.clear(); sp = 0; bp = 0; ep = usize::MAX; acc = Undefined *)
               let s1 := with_stack s' (repeat VUndef (length (stack s'))) 0 in
-              ROk (Failed e msg) (with_trace (with_acc (with_ep (with_bp s1 0) USIZE_MAX) VUndef) (Some t))
+              ROk (Failed e msg (Some t)) (with_acc (with_ep (with_bp s1 0) USIZE_MAX) VUndef)
           | Err _ => RPanic 51
           | Panic k => RPanic k
           | NoFuel => RNoFuel
@@ -577,7 +577,7 @@ Fixpoint run_loop (fuel : nat) (cycles : N) (count : option N) (s : vm) : res ru
       end
   end.
 Definition run_count (fuel : nat) (count : option N) (s : vm) : res run_result :=
-  run_loop fuel 0 count (with_trace s None).
+  run_loop fuel 0 count s.
 
 (* vm/mod.rs:99-107 *)
 Definition prepare_eval (e : cell) : M unit :=
@@ -591,7 +591,7 @@ Definition prepare_eval (e : cell) : M unit :=
 Definition eval (fuel : nat) (e : cell) (s : vm) : res run_result :=
   match prepare_eval e s with
   | ROk _ s' => run_count fuel None s'
-  | RErr e m s' => ROk (Failed e m) s'
+  | RErr e m s' => ROk (Failed e m None) s'
   | RPanic k => RPanic k
   | RNoFuel => RNoFuel
   end.
